@@ -2,6 +2,7 @@
 
 #include "system/ThreadPool.h"
 #include "system/WaitCondition.h"
+#include "support/VerifHooks.h"
 
 namespace muscle {
 
@@ -59,6 +60,7 @@ uint32 ThreadPool :: ShutdownThreadsInTableWithoutDeadlocking(Hashtable<uint32, 
    {
       DECLARE_MUTEXGUARD(_poolLock);
       temp.SwapContents(table);  // (table) becomes empty at this point, and (temp) becomes populated
+      MUSCLE_VERIF_EVENT("SwapTable", this, (&table == &_activeThreads) ? 1 : 0, temp.GetNumItems(), 0, 0);
    }
 
    for (HashtableIterator<uint32, ThreadPoolThreadRef> iter(temp); iter.HasData(); iter++) iter.GetValue()()->ShutdownInternalThread();
@@ -70,6 +72,7 @@ uint32 ThreadPool :: Shutdown()
    {
       DECLARE_MUTEXGUARD(_poolLock);
       _shuttingDown = true;
+      MUSCLE_VERIF_EVENT("ShutFlag", this, 0, 0, 0, 0);
    }
 
    // Do this part without holding _poolLock, to avoid potential deadlocks with the threads we are shutting down
@@ -86,6 +89,7 @@ uint32 ThreadPool :: Shutdown()
    for (ConstHashtableIterator<IThreadPoolClient *, bool> iter(_registeredClients);  iter.HasData(); iter++) iter.GetKey()->_threadPool = NULL;  // so they won't try to unregister from us
 
    const uint32 ret = count+_registeredClients.GetNumItems()+_pendingMessages.GetNumItems()+_deferredMessages.GetNumItems()+_waitingForCompletion.GetNumItems();
+   MUSCLE_VERIF_EVENT("ShutFinal", this, _registeredClients.GetNumItems(), _waitingForCompletion.GetNumItems(), 0, 0);
    _availableThreads.Clear();
    _activeThreads.Clear();
    _registeredClients.Clear();
@@ -128,11 +132,13 @@ void ThreadPool :: UnregisterClient(IThreadPoolClient * client)
 
       // The Put() call should never fail in practice because we called _waitingForCompletion.EnsureSize() earlier in RegisterClient()
       if ((DoesClientHaveMessagesOutstandingUnsafe(client))&&(_waitingForCompletion.Put(client, &waitCondition).IsOK())) doWait = true;
+      MUSCLE_VERIF_EVENT("UnregBegin", this, (long) client, doWait ? 1 : 0, 0, 0);
    }
    if (doWait) MLOG_ON_ERROR("ThreadPool::Wait()", waitCondition.Wait()); // block here (outside of the _poolLock) until we are notified, indicating that we can continue
 
    // final cleanup
    DECLARE_MUTEXGUARD(_poolLock);
+   MUSCLE_VERIF_EVENT("UnregEnd", this, (long) client, 0, 0, 0);
    (void) _registeredClients.Remove(client);
    (void) _pendingMessages.Remove(client);
    (void) _deferredMessages.Remove(client);
@@ -161,6 +167,7 @@ status_t ThreadPool :: ThreadPoolThread :: SendMessagesToInternalThread(IThreadP
 status_t ThreadPool :: ThreadPoolThread :: MessageReceivedFromOwner(const MessageRef & msgRef, uint32 /*numLeft*/)
 {
    if (msgRef() == NULL) return B_SHUTTING_DOWN;  // time to go away!
+   MUSCLE_VERIF_EVENT("Receive", _threadPool, _threadID, (long) _currentClient, _internalQueue.GetNumItems(), 0);
 
    MASSERT((_currentClient != NULL),    "ThreadPoolThread::MessageReceivedFromOwner:  _currentClient is NULL!");
    MASSERT((_internalQueue.HasItems()), "ThreadPoolThread::MessageReceivedFromOwner:  _internalQueue is empty!");
@@ -187,6 +194,7 @@ status_t ThreadPool :: SendMessageToThreadPool(IThreadPoolClient * client, const
    Queue<MessageRef> * mq = ((*isBeingHandled)?_deferredMessages:_pendingMessages).GetOrPut(client);
    MRETURN_OOM_ON_NULL(mq);
    MRETURN_ON_ERROR(mq->AddTail(msg));
+   MUSCLE_VERIF_EVENT("Submit", this, (long) client, (*isBeingHandled) ? 1 : 0, mq->GetNumItems(), 0);
 
    if ((*isBeingHandled == false)&&(mq->GetNumItems() == 1)) DispatchPendingMessagesUnsafe();
    return B_NO_ERROR;
@@ -214,6 +222,7 @@ void ThreadPool :: DispatchPendingMessagesUnsafe()
             status_t ret;
             if (StartInternalThread(*tRef()).IsError(ret)) {LogTime(MUSCLE_LOG_ERROR, "ThreadPool:  Error launching thread! [%s]\n", ret()); break;}
             if (_availableThreads.Put(tRef()->GetThreadID(), tRef).IsError()) {tRef()->ShutdownInternalThread(); break;}  // should never happen, but just in case
+            MUSCLE_VERIF_EVENT("NewThread", this, tRef()->GetThreadID(), (long) static_cast<Thread *>(tRef()), 0, 0);
          }
 
          if (_availableThreads.HasItems())
@@ -225,6 +234,7 @@ void ThreadPool :: DispatchPendingMessagesUnsafe()
                if (tRef()->SendMessagesToInternalThread(client, *mq).IsOK())
                {
                   *isBeingHandled = true;  // this is to note that this client now has a Thread that is processing its data
+                  MUSCLE_VERIF_EVENT("Dispatch", this, (long) client, tRef()->GetThreadID(), 0, 0);
                   (void) _pendingMessages.RemoveFirst();
                }
                else
@@ -244,6 +254,7 @@ void ThreadPool :: DispatchPendingMessagesUnsafe()
 void ThreadPool :: ThreadFinishedProcessingClientMessages(uint32 threadID, IThreadPoolClient * client)
 {
    DECLARE_MUTEXGUARD(_poolLock);
+   MUSCLE_VERIF_EVENT("Finish", this, threadID, (long) client, _shuttingDown ? 1 : 0, 0);
    if (_shuttingDown) return;
 
    bool * isClientBeingHandled = _registeredClients.Get(client);
@@ -260,6 +271,7 @@ void ThreadPool :: ThreadFinishedProcessingClientMessages(uint32 threadID, IThre
          {
             MASSERT(pendingMessages->IsEmpty(), "ThreadPool::ThreadFinishedProcessingClientMessages():  pendingMessages isn't empty!");
             pendingMessages->SwapContents(*deferredMessages);
+            MUSCLE_VERIF_EVENT("Promote", this, (long) client, pendingMessages->GetNumItems(), 0, 0);
          }
          else
          {
@@ -276,6 +288,7 @@ void ThreadPool :: ThreadFinishedProcessingClientMessages(uint32 threadID, IThre
       WaitCondition * wc = _waitingForCompletion[client];  // wake up user thread if he's waiting in UnregisterClient()
       if (wc)
       {
+         MUSCLE_VERIF_EVENT("NotifyWaiter", this, (long) client, 0, 0, 0);
          MLOG_ON_ERROR("ThreadPool::Notify()", wc->Notify());
          (void) _waitingForCompletion.Remove(client);
       }
